@@ -368,3 +368,5 @@ def run(ctx):
              'escape sequence) silences ebusd', minimum=2)
     c01.raw_symbol_rules(ctx, None, 'C03.R8')
     r9(ctx)
+    import rules.C15 as c15
+    c15.fresh_answer_rule(ctx, 'C03.R10')
